@@ -10,7 +10,8 @@ mv /tmp/zz_demo_$$.rs tests/zz_demo.rs
 echo "== demo with change"
 cargo test --offline --test zz_demo 2>&1 | grep -E "^test result|panicked" | head -3
 echo "== demo without change"
-git stash -q
+git diff -- src bevy_replicon_example_backend > /tmp/confirm_$$.diff
+git apply -R /tmp/confirm_$$.diff
 cargo test --offline --test zz_demo 2>&1 | grep -E "^test result|panicked" | head -3
-git stash pop -q
+git apply /tmp/confirm_$$.diff; rm -f /tmp/confirm_$$.diff
 git status --short | head -5
